@@ -781,7 +781,7 @@ func valueDependsOn(v ssa.Value, pred func(ssa.Value) bool) bool {
 						return true
 					}
 				}
-				return false
+				return walk(x.X, depth+1) // the cell itself (a captured variable) may be what is asked for
 			}
 		}
 		if al, isAlloc := v.(*ssa.Alloc); isAlloc {
